@@ -29,6 +29,9 @@ PATCHES = [
     b'{"a":null,"b":{"c":false,"z":1.5},"q":[0.25]}',
     b'{"x":{"a":null,"c":9.5}}',
     b'[1.5]',
+    b'[{"op":"remove","path":""}]',
+    b'[{"op":"copy","from":"/a","path":""}]',
+    b'[{"op":"test","path":"","value":{}},{"op":"remove","path":""}]',
 ]
 POINTERS = [b"", b"/a/1", b"/b/e", b"/k/k/k/2/1/1/0", b"/0/tags/1", b"/x/B", b"/a~1b/m~0n/1", b"/nope", b"/w/2", b"/2/id"]
 KEYS = [b"a", b"b", b"k", b"K", b"x", b"new key", b"id", b"z"]
@@ -61,7 +64,8 @@ def thread_program():
     # calls that every thread should make on its two object documents: both patch generators, sort, all print paths
     core = st.lists(st.sampled_from([["U", 0, 1, 0, 1, b""], ["U", 0, 1, 1, 1, b""], ["U", 1, 0, 1, 1, b""], ["U", 1, 0, 1, 3, b""], ["U", 0, 1, 0, 3, b""],
                                      ["U", 0, 1, 1, 5, b""], ["R", 0, 0, 1, 0, b""], ["R", 1, 1, 0, 0, b""], ["R", 0, 2, 1, 3, b""], ["R", 1, 3, 0, 0, b""],
-                                     ["D", 2, 0, 1, 0, b""], ["C", 0, 1, 1, 0, b""], ["E", 0, 0, 7, 0, b"new key"]]), min_size=2, max_size=5)
+                                     ["D", 2, 0, 1, 0, b""], ["C", 0, 1, 1, 0, b""], ["E", 0, 0, 7, 0, b"new key"],
+                                     ["U", 2, 0, 1, 2, b'[{"op":"remove","path":""}]'], ["U", 2, 0, 0, 2, b'[{"op":"replace","path":"","value":[1.5]}]']]), min_size=2, max_size=6)
     return st.tuples(head, core, st.lists(st.one_of(op, op, util), min_size=3, max_size=30)).map(lambda t: t[0] + t[1] + t[2])
 
 
